@@ -8,11 +8,12 @@ from .. import translate_schema as TS
 PROP = "C01"
 COQ_EXTRA = ["theories/Model/ConvertCases.vo", "theories/Model/RoundTripCases.vo", "theories/Gen/SchemaS.vo"]
 IMPORTS = ["Model.Schema", "Model.Convert", "Model.ConvertCases", "Model.RoundTripCases", "Gen.SchemaGen", "Gen.SchemaS"]
-PARTIAL = ["proved: the tree-level round trip from_etree (to_etree i) = OK (i, []) for every class table, converter pair and valid instance (RoundTrip1-6), the soundness of the "
-           "decidable class condition and of the decidable instance validity, and the class condition on the regenerated table; the wire half (serializer output is a rendering "
-           "the tokenizer reads back to the same tree) is C02's theorem and the scalar half (conv (unconv v) = v) is C09/C10's: their composition into one statement over bytes "
-           "is exercised on the implementation for every class x 6 wire forms x header versions, not restated as a single Coq theorem",
-           "classes with a groom/ungroom rename (MAIL, MFINFO, STOCKINFO) are outside the generic theorem; they are covered by the correspondence and implementation runs only"]
+PARTIAL = ["proved: the tree-level round trip (roundtrip_tree, RoundTrip1-6) and its composition with the wire theorem of the Sgml/Serialize engine (wire_roundtrip_closed / "
+           "wire_roundtrip_unclosed: to_etree -> serializer text -> tokenizer + tree builder -> from_etree returns the same instance, plain and pretty-printed); the hypothesis "
+           "conv (escape (unconv v)) = Some v on element values is C09/C10's subject; the header + byte encoding around the body (C05/C12) is not restated inside these theorems: "
+           "the complete file round trip is exercised on the implementation for every class x 6 wire forms x header versions",
+           "classes with a groom/ungroom rename (MAIL, MFINFO, STOCKINFO) are outside the generic theorem; they are covered by the correspondence and implementation runs only",
+           "the SGML form without end tags is proved for trees without empty aggregates (recorded finding) and without a data element closing an aggregate of its own name"]
 MANIFEST = {
     "engine": "Schema",
     "text": "Theorem for EVERY class table, EVERY pair of element converters and EVERY valid instance (any depth, any number of members): what to_etree writes, from_etree reads "
